@@ -18,7 +18,7 @@ static const char* LIFEN[] = {"direct", "move_ctor", "move_ctor_chain", "move_as
 
 template<class MakeTrig, class MakeDet, class MakeDet2, class MakeTrig2, class MakeDet3>
 static void scenario(vrf::Round& R, const char* kind, MakeTrig make_trigger, MakeDet make_detector, MakeDet2 make_other_detector,
-                     MakeTrig2 make_scratch_trigger, MakeDet3 make_scratch_detector)
+                     MakeTrig2 make_scratch_trigger, MakeDet3 make_scratch_detector, std::function<void()> drop_creator_refs = nullptr)
 {
     auto& rng = R.rng;
     int life = static_cast<int>(rng.below(NLIFE));
@@ -27,15 +27,27 @@ static void scenario(vrf::Round& R, const char* kind, MakeTrig make_trigger, Mak
     int pre_delay = static_cast<int>(rng.range(0, 6));
     int value = static_cast<int>(rng.range(1, 1000000));
     Shared sh;
+    // hand-over mode (explicit lines only): the trigger and the detectors are built first, then the creator gives up every
+    // handle of its own, so that only the trigger and the detectors still refer to the line
+    bool handover = drop_creator_refs && rng.chance(50);
+    std::unique_ptr<TripWireTrigger> prebuilt_trigger;
+    std::vector<std::unique_ptr<TripWireDetector>> prebuilt_det;
+    std::unique_ptr<TripWireDetector> final_det;
     std::atomic<int> t0_done{0};
     std::atomic<uint64_t> seen_true{0}, seen_false{0}, polls_after{0};
-    R.program(std::string("{\"line\":\"") + kind + "\",\"life\":\"" + LIFEN[life] + "\",\"detectors\":" + std::to_string(ndet) +
+    if (handover && life == TWO_TRIGGERS) life = DIRECT;
+    if (handover) {
+        prebuilt_trigger.reset(new TripWireTrigger(make_trigger()));
+        for (int d = 0; d < ndet; d++) prebuilt_det.emplace_back(new TripWireDetector(make_detector()));
+        final_det.reset(new TripWireDetector(make_detector()));
+    }
+    R.program(std::string("{\"line\":\"") + kind + "\",\"creator_keeps_a_handle\":" + (handover ? "0" : "1") + ",\"life\":\"" + LIFEN[life] + "\",\"detectors\":" + std::to_string(ndet) +
               ",\"other_line_detectors\":" + std::to_string(nother) + ",\"pre_delay\":" + std::to_string(pre_delay) + "}");
     R.spawn([&] {
         // the trigger thread
         std::unique_ptr<TripWireTrigger> keep_other;
         {
-            std::unique_ptr<TripWireTrigger> t1(new TripWireTrigger(make_trigger()));
+            std::unique_ptr<TripWireTrigger> t1(handover ? prebuilt_trigger.release() : new TripWireTrigger(make_trigger()));
             std::unique_ptr<TripWireTrigger> final_owner;
             for (int i = 0; i < pre_delay; i++) vrf::hyield();
             switch (life) {
@@ -95,7 +107,7 @@ static void scenario(vrf::Round& R, const char* kind, MakeTrig make_trigger, Mak
     });
     for (int d = 0; d < ndet; d++) {
         R.spawn([&, d] {
-            TripWireDetector det = make_detector();
+            TripWireDetector det = handover ? std::move(*prebuilt_det[static_cast<size_t>(d)]) : make_detector();
             bool was = false;
             int after = 0;
             for (long it = 0;; it++) {
@@ -138,9 +150,13 @@ static void scenario(vrf::Round& R, const char* kind, MakeTrig make_trigger, Mak
             }
         });
     }
+    if (handover) drop_creator_refs();
     R.run();
-    // a fresh detector (any thread) sees the line tripped afterwards
-    if (!make_detector().isTripped()) vrf::violation("oracle:not_tripped_after_trigger_destruction_returned", "{\"detector\":\"fresh\"}");
+    // a detector that was not polling (any thread) sees the line tripped afterwards
+    if (handover) {
+        if (!final_det->isTripped()) vrf::violation("oracle:not_tripped_after_trigger_destruction_returned", "{\"detector\":\"idle, creator handle dropped\"}");
+        vrf::count("rounds_where_only_trigger_and_detectors_refer_to_the_line");
+    } else if (!make_detector().isTripped()) vrf::violation("oracle:not_tripped_after_trigger_destruction_returned", "{\"detector\":\"fresh\"}");
     vrf::note(vrf::mixhash(vrf::mixhash(R.sched_sig, static_cast<uint64_t>(life * 64 + ndet * 8 + nother)), seen_false.load() * 1315423911u + seen_true.load()),
               seen_false.load() > 0 && seen_true.load() > 0);
     vrf::count(std::string("life_") + LIFEN[life]);
@@ -196,12 +212,12 @@ int main(int argc, char** argv)
             if (TripWireDetector(oidx).isTripped()) vrf::violation("oracle:other_line_tripped", "{\"index\":" + std::to_string(oidx) + "}");
             vrf::count("indexed_rounds");
         } else {
-            TriplineType line = make_tripline();
+            auto line = std::make_shared<TriplineType>(make_tripline());  // the creator's only handle (can be given up)
             TriplineType other = make_tripline();
             TriplineType scratch = make_tripline();
-            scenario(R, "explicit", [line] { return TripWireTrigger(line); }, [line] { return TripWireDetector(line); },
+            scenario(R, "explicit", [line] { return TripWireTrigger(*line); }, [line] { return TripWireDetector(*line); },
                      [other] { return TripWireDetector(other); }, [scratch] { return TripWireTrigger(scratch); },
-                     [scratch] { return TripWireDetector(scratch); });
+                     [scratch] { return TripWireDetector(scratch); }, [line] { line->reset(); });
         }
     }
     vrf::finish();
